@@ -28,17 +28,23 @@ def coq_cfg(passive, conf):
         '(@None bool)' if req is None else '(Some %s)' % coq_bool(req))
 
 
+PRELUDE = '''Fixpoint pat (n : nat) (x : N) : list N :=
+  match n with O => nil | S k => (x mod 251) :: pat k (x + 31) end.
+'''
+
+
 def data_term(spec):
-    ''' Bundle/stream data is ('lit', bytes) or ('gen', seed, length). '''
+    ''' Bundle/stream data is ('lit', bytes) or ('gen', seed, length): a cheap
+    arithmetic pattern defined identically in the case files (PRELUDE). '''
     if spec[0] == 'lit':
         return coq_bytes(spec[1])
-    return '(mkdata %d %d)' % (spec[1], spec[2])
+    return '(pat %d %d)' % (spec[2], spec[1])
 
 
 def data_bytes(spec):
     if spec[0] == 'lit':
         return bytes(spec[1])
-    return mkdata(spec[1], spec[2])
+    return bytes((spec[1] + 31 * idx) % 251 for idx in range(spec[2]))
 
 
 def coq_op(mop):
